@@ -134,7 +134,11 @@ class BehavioralRTLIRToVVisitorL1( bir.BehavioralRTLIRNodeVisitor ):
     return s._is_verilog_reserved( name )
 
   def process_unpacked_q( s, node, signal, signal_tplt ):
-    if isinstance( node.Type, rt.Port ):
+    # The indices of enclosing component / interface arrays come right after
+    # the name of the flattened signal, i.e. before the indices of a port
+    # array: s.sub[i].in_[j][k] is sub__in_[i][j][k]
+    if isinstance( node.Type, rt.Port ) or \
+       ( isinstance( node.Type, rt.Array ) and isinstance( node.Type.get_sub_type(), rt.Port ) ):
       filler = ''.join([f'[{i}]' for i in list(s._unpacked_q)])
       s._unpacked_q.clear()
       if '{}' in signal_tplt:
